@@ -41,7 +41,7 @@ UID = st.one_of(
     _HEX,
     st.sampled_from(["null", "NULL", "None", "none", "nil", "0", "false", "N", "NaN", "-", "_", "NONE-2024-01", "NONESUCH_2", "NONE1", "xNONE", "NONENONE"]),
 )
-ENTITY_BITS = ["?>", "<?", "\n", "\n\n\n", "\r\n", "&#60;", "&#38;", "&#x3C;", "&#62;", "&amp;", "&lt;", "&#233;", "&#0;", "&nbsp;", "&", ";", "#"]
+ENTITY_BITS = ["e\u0301", "\u212b", "\uf900", "?>", "<?", "\n", "\n\n\n", "\r\n", "&#60;", "&#38;", "&#x3C;", "&#62;", "&amp;", "&lt;", "&#233;", "&#0;", "&nbsp;", "&", ";", "#"]
 
 ALL_PAIRS = [(e, c) for e in ("USASCII", "UNICODE", "UTF-8") for c in ("ISO-8859-1", "1252", "NONE")]
 CP1252_CHARS = "".join(bytes([b]).decode("cp1252") for b in range(0x80, 0x100) if b not in (0x81, 0x8D, 0x8F, 0x90, 0x9D))
